@@ -15,7 +15,7 @@ use crate::program::*;
 use crate::sim::*;
 
 /// Checks common to every source callback. Returns false if the run is dead.
-fn common(sim: &Sim, id: Id, tag: &Tag) -> bool {
+pub fn common(sim: &Sim, id: Id, tag: &Tag) -> bool {
     if sim.is_dead() {
         return false;
     }
@@ -84,7 +84,7 @@ fn common(sim: &Sim, id: Id, tag: &Tag) -> bool {
 }
 
 /// Pop the next script entry of `id` and run its operations. Returns the scripted return.
-fn run_script(sim: &Sim, id: Id) -> Ret {
+pub fn run_script(sim: &Sim, id: Id) -> Ret {
     let entry = {
         let mut st = sim.st.borrow_mut();
         st.srcs.get_mut(&id).and_then(|s| s.script.pop_front())
